@@ -21,6 +21,10 @@ extern int  verif_out_calls;     /* output-primitive calls seen by the stubs   *
 
 #ifdef REPLAY
 # include <stdio.h>
+# include <sanitizer/allocator_interface.h>
+/* exact requested size of a heap block / is this the start of a live heap block (AddressSanitizer) */
+# define OBJ_SIZE(p)        ((size_t) __sanitizer_get_allocated_size((const void *) (p)))
+# define IS_ALLOC_START(p)  (__sanitizer_get_ownership((const void *) (p)) != 0)
 long verif_next_input(void);
 void verif_check_failed(const char *label);
 void verif_infeasible(const char *what);
@@ -30,6 +34,8 @@ void verif_infeasible(const char *what);
 # define WITNESS()         do { } while (0)
 # define CBMC_ONLY(stmt)   do { } while (0)
 #else
+# define OBJ_SIZE(p)        ((size_t) __CPROVER_OBJECT_SIZE(p))
+# define IS_ALLOC_START(p)  (__CPROVER_POINTER_OFFSET(p) == 0)
 long nondet_long(void);
 # define V_NONDET()        nondet_long()
 # define ASSUME(c)         __CPROVER_assume(c)
